@@ -3,8 +3,8 @@
 (*                                                                                                          *)
 (* One action per critical section of the implementation, environment (shim) actions and scheduler outcomes  *)
 (* separate, multi-step events as several actions:                                                          *)
-(*   environment : AddNode RemoveNode Drain Undrain AddApp RemoveApp AddAsk ReleaseKey Confirm(i)             *)
-(*                 FirePhTimer FireStateTimer                                                               *)
+(*   environment : AddNode RemoveNode Drain Undrain AddApp RemoveApp AddAsk ReleaseKey ReleaseAll Confirm(i)  *)
+(*                 FirePhTimer FireStateTimer Deny (the shim's predicates refuse an ask on a node)            *)
 (*   scheduler   : Allocate (tryAllocate/tryReservedAllocate + partition.allocate)  Reserve  Unreserve       *)
 (*                 ReplaceSame / ReplaceCross (tryPlaceholderAllocate)  -> ConfirmReplace (shim confirmation) *)
 (* The scheduler is nondeterministic: any decision the guards (NodeFit, QueueFit, ReservedForOther, gang      *)
@@ -38,21 +38,23 @@ VARIABLES node,   \* [Nodes -> [reg, sched : BOOLEAN, cap : Nat, keys : SUBSET K
           sv,     \* [Keys -> {"none","out","bound","relAnn"}]  the shim's view of each key
           pend,   \* sequence of core initiated releases [key, term] the shim has not confirmed yet
           bad,    \* set of illegal announcements made so far (C04)
+          den,    \* SUBSET (Keys \X Nodes): the shim's predicates refuse this ask on this node (kept for the life of the key name)
           hist
-vars == <<node, ask, app, qal, resv, sv, pend, bad, hist>>
-view == <<node, ask, app, qal, resv, sv, pend, bad>>
+vars == <<node, ask, app, qal, resv, sv, pend, bad, den, hist>>
+view == <<node, ask, app, qal, resv, sv, pend, bad, den>>
 
 NoNode == "-"
 NoAsk == [st |-> "none", app |-> CHOOSE a \in Apps : TRUE, size |-> 0, ph |-> FALSE, tg |-> "", node |-> NoNode, rel |-> "", released |-> FALSE, listed |-> FALSE]
 Sum(S, f(_)) == FoldSet(LAMBDA x, acc : acc + f(x), 0, S)
-H(r) == hist' = IF Len(hist) < MaxHist THEN Append(hist, r) ELSE hist
+HH(r) == hist' = IF Len(hist) < MaxHist THEN Append(hist, r) ELSE hist
+H(r) == HH(r) /\ UNCHANGED den        \* every action but Deny leaves the predicate outcomes alone
 Res(n) == [memory |-> n]
 
 Init == /\ node = [n \in Nodes |-> [reg |-> FALSE, sched |-> FALSE, cap |-> 0, keys |-> {}]]
         /\ ask = [k \in Keys |-> NoAsk]
         /\ app = [a \in Apps |-> [st |-> "none", known |-> FALSE]]
         /\ qal = [q \in Leaves |-> 0]
-        /\ resv = {} /\ sv = [k \in Keys |-> "none"] /\ pend = <<>> /\ bad = {}
+        /\ resv = {} /\ sv = [k \in Keys |-> "none"] /\ pend = <<>> /\ bad = {} /\ den = {}
         /\ hist = <<>>
 
 (* ------------------------------------------------------------------ derived *)
@@ -109,6 +111,11 @@ Drain(n) == /\ node[n].reg /\ node[n].sched
 Undrain(n) == /\ node[n].reg /\ ~node[n].sched
               /\ node' = [node EXCEPT ![n].sched = TRUE]
               /\ UNCHANGED <<ask, app, qal, resv, sv, pend, bad>> /\ H([op |-> "undrain", node |-> n])
+
+\* the shim's predicates (affinity, taints, ...) refuse the ask on the node from now on
+Deny(k, n) == /\ ask[k].st = "pend" /\ ~ask[k].ph /\ <<k, n>> \notin den
+              /\ den' = den \cup {<<k, n>>}
+              /\ UNCHANGED <<node, ask, app, qal, resv, sv, pend, bad>> /\ HH([op |-> "deny", key |-> k, node |-> n])
 
 \* removeNode / removeNodeAllocations: every allocation held by the node object is removed from its application
 \* and queue; an in-flight swap touching the node is confirmed (placeholder here, real elsewhere) or reversed.
@@ -170,8 +177,29 @@ RemoveApp(a) ==
       /\ pend' = SelectSeq(pend, LAMBDA p : p.key \notin mine)
    /\ H([op |-> "removeApp", app |-> a])
 
+\* a release without an allocation key: every allocation and every ask of the application goes (the application stays);
+\* an in-flight swap is undone with the placeholder, its real half leaves the node it was placed on
+ReleaseAll(a) ==
+   /\ Live(a) /\ AppKeys(a) # {}
+   /\ LET mine == AppKeys(a)
+          listed == Listed(a)
+          rel == SetToSeq(listed) IN
+      /\ ask' = [k \in Keys |-> IF k \in mine THEN NoAsk ELSE ask[k]]
+      /\ node' = [n \in Nodes |-> [node[n] EXCEPT !.keys = node[n].keys \ mine]]
+      /\ qal' = [qal EXCEPT ![AppLeaf[a]] = qal[AppLeaf[a]] - Sum(listed, LAMBDA k : ask[k].size)]
+      /\ resv' = {r \in resv : r[1] \notin mine}
+      /\ app' = [app EXCEPT ![a].st = IF @ \in {"Accepted", "Running"} THEN "Completing" ELSE @]
+      /\ bad' = bad \cup {<<"release", rel[i]>> : i \in {j \in 1..Len(rel) : sv[rel[j]] = "none"}}
+      /\ sv' = [k \in Keys |-> IF k \in mine THEN "none" ELSE sv[k]]
+      /\ pend' = SelectSeq(pend, LAMBDA p : p.key \notin mine)
+   /\ H([op |-> "releaseAll", app |-> a])
+
+\* key names are interchangeable: a new ask always takes the first free name (fewer equivalent histories, same behaviours)
+KeyRank == CHOOSE f \in [Keys -> 1..Cardinality(Keys)] : \A x, y \in Keys : x # y => f[x] # f[y]
+FreeKeys == {x \in Keys : ask[x].st = "none" /\ sv[x] = "none"}
 AddAsk(k, a, s, ph, tg) ==
    /\ ask[k].st = "none" /\ sv[k] = "none" /\ Live(a)
+   /\ \A x \in FreeKeys : KeyRank[k] <= KeyRank[x]
    /\ (ph => a \in GangApps /\ tg # "")
    /\ (tg # "" => a \in GangApps)
    /\ ask' = [ask EXCEPT ![k] = [st |-> "pend", app |-> a, size |-> s, ph |-> ph, tg |-> tg, node |-> NoNode, rel |-> "", released |-> FALSE, listed |-> FALSE]]
@@ -271,7 +299,7 @@ Sched == H([op |-> "schedule"])
 Schedulable(a) == app[a].st \in {"Accepted", "Running", "Completing", "Resuming"}
 Allocate(k, n) ==
    /\ ask[k].st = "pend" /\ Schedulable(ask[k].app)
-   /\ NodeFit(k, n) /\ ~ReservedForOther(k, n) /\ QueueFit(k)
+   /\ NodeFit(k, n) /\ ~ReservedForOther(k, n) /\ QueueFit(k) /\ <<k, n>> \notin den
    /\ ask' = [ask EXCEPT ![k] = [@ EXCEPT !.st = "alloc", !.node = n, !.listed = TRUE]]
    /\ node' = [node EXCEPT ![n].keys = @ \cup {k}]
    /\ qal' = [qal EXCEPT ![AppLeaf[ask[k].app]] = @ + ask[k].size]
@@ -280,7 +308,7 @@ Allocate(k, n) ==
    /\ Announce(k) /\ UNCHANGED pend /\ Sched
 Reserve(k, n) ==
    /\ ask[k].st = "pend" /\ Schedulable(ask[k].app) /\ node[n].reg /\ node[n].sched /\ QueueFit(k)
-   /\ ask[k].size <= node[n].cap /\ ~NodeFit(k, n)
+   /\ ask[k].size <= node[n].cap /\ ~NodeFit(k, n) /\ <<k, n>> \notin den
    /\ \A r \in resv : r[1] # k /\ r[2] # n
    /\ resv' = resv \cup {<<k, n>>}
    /\ UNCHANGED <<node, ask, app, qal, sv, pend, bad>> /\ Sched
@@ -289,7 +317,7 @@ CanReplace(ph, real) ==
    /\ ask[real].st = "pend" /\ ~ask[real].ph /\ ask[real].app = ask[ph].app /\ ask[real].tg = ask[ph].tg /\ ask[real].tg # ""
    /\ ask[real].size <= ask[ph].size /\ Schedulable(ask[ph].app)
 ReplaceSame(ph, real) ==
-   /\ CanReplace(ph, real) /\ node[ask[ph].node].reg
+   /\ CanReplace(ph, real) /\ node[ask[ph].node].reg /\ <<real, ask[ph].node>> \notin den
    /\ ask' = [ask EXCEPT ![real] = [@ EXCEPT !.st = "alloc", !.node = ask[ph].node, !.rel = ph],
                          ![ph] = [@ EXCEPT !.rel = real, !.released = TRUE]]
    /\ AnnounceRelease(<<ph>>, "PLACEHOLDER_REPLACED")
@@ -297,7 +325,7 @@ ReplaceSame(ph, real) ==
    /\ resv' = IF AsCoded THEN resv ELSE {r \in resv : r[1] # real}
    /\ UNCHANGED <<node, app, qal>> /\ Sched
 ReplaceCross(ph, real, n) ==
-   /\ CanReplace(ph, real) /\ n # ask[ph].node /\ NodeFit(real, n) /\ ~ReservedForOther(real, n)
+   /\ CanReplace(ph, real) /\ n # ask[ph].node /\ NodeFit(real, n) /\ ~ReservedForOther(real, n) /\ <<real, n>> \notin den
    /\ ask' = [ask EXCEPT ![real] = [@ EXCEPT !.st = "alloc", !.node = n, !.rel = ph],
                          ![ph] = [@ EXCEPT !.rel = real, !.released = TRUE]]
    /\ node' = [node EXCEPT ![n].keys = @ \cup {real}]
@@ -308,7 +336,8 @@ Idle == UNCHANGED <<node, ask, app, qal, resv, sv, pend, bad>> /\ Sched
 
 Next == \/ \E n \in Nodes, c \in Caps : AddNode(n, c)
         \/ \E n \in Nodes : Drain(n) \/ Undrain(n) \/ RemoveNode(n)
-        \/ \E a \in Apps : AddApp(a) \/ RemoveApp(a) \/ FirePhTimer(a) \/ FireStateTimer(a)
+        \/ \E a \in Apps : AddApp(a) \/ RemoveApp(a) \/ ReleaseAll(a) \/ FirePhTimer(a) \/ FireStateTimer(a)
+        \/ \E k \in Keys, n \in Nodes : Deny(k, n)
         \/ \E k \in Keys, a \in Apps, s \in Sizes : AddAsk(k, a, s, FALSE, "")
         \/ \E k \in Keys, a \in GangApps, tg \in TaskGroups : AddAsk(k, a, 2, TRUE, tg) \/ \E s \in Sizes : AddAsk(k, a, s, FALSE, tg)
         \/ \E k \in Keys : ReleaseKey(k)
@@ -316,6 +345,56 @@ Next == \/ \E n \in Nodes, c \in Caps : AddNode(n, c)
         \/ \E k \in Keys, n \in Nodes : Allocate(k, n) \/ Reserve(k, n)
         \/ \E p, r \in Keys : ReplaceSame(p, r) \/ \E n \in Nodes : ReplaceCross(p, r, n)
 Spec == Init /\ [][Next]_vars
+
+\* Warm start: the state after  addNode n, addNode m, addApp g, addAsk k (placeholder), schedule  with the placeholder
+\* allocated. Bounded exploration from here reaches what happens around a placeholder swap (real task arrives, predicates
+\* refuse it on some node, swap in place or across nodes, node/application removal, release, timers, confirmation in any
+\* order) within a handful of steps; hist starts with the operations that lead here so each emitted history is replayable.
+WarmCap == CHOOSE c \in Caps : \A d \in Caps : c >= d
+WN1 == CHOOSE w \in Nodes : TRUE
+WN2 == CHOOSE w \in Nodes \ {WN1} : TRUE
+WG == CHOOSE w \in GangApps : TRUE
+WK == CHOOSE w \in Keys : TRUE
+WTG == CHOOSE w \in TaskGroups : TRUE
+InitWarm ==
+      /\ node = [w \in Nodes |-> IF w = WN1 THEN [reg |-> TRUE, sched |-> TRUE, cap |-> WarmCap, keys |-> {WK}]
+                                  ELSE IF w = WN2 THEN [reg |-> TRUE, sched |-> TRUE, cap |-> WarmCap, keys |-> {}]
+                                  ELSE [reg |-> FALSE, sched |-> FALSE, cap |-> 0, keys |-> {}]]
+      /\ ask = [w \in Keys |-> IF w = WK THEN [st |-> "alloc", app |-> WG, size |-> 2, ph |-> TRUE, tg |-> WTG, node |-> WN1, rel |-> "", released |-> FALSE, listed |-> TRUE]
+                                ELSE NoAsk]
+      /\ app = [w \in Apps |-> IF w = WG THEN [st |-> "Accepted", known |-> TRUE] ELSE [st |-> "none", known |-> FALSE]]
+      /\ qal = [q \in Leaves |-> IF q = AppLeaf[WG] THEN 2 ELSE 0]
+      /\ resv = {} /\ sv = [w \in Keys |-> IF w = WK THEN "bound" ELSE "none"] /\ pend = <<>> /\ bad = {} /\ den = {}
+      /\ hist = << [op |-> "addNode", node |-> WN1, cap |-> Res(WarmCap), drained |-> FALSE],
+                   [op |-> "addNode", node |-> WN2, cap |-> Res(WarmCap), drained |-> FALSE],
+                   [op |-> "addApp", app |-> WG, queue |-> AppLeaf[WG], user |-> "u0", groups |-> <<"g1">>, tags |-> [w \in {} |-> ""],
+                    gang |-> TRUE, style |-> "Soft", phAsk |-> Res(2), forced |-> FALSE],
+                   [op |-> "addAsk", app |-> WG, key |-> WK, res |-> Res(2), ph |-> TRUE, tg |-> WTG, aged |-> TRUE, reqNode |-> "", prio |-> 0,
+                    preemptOther |-> FALSE, preemptSelf |-> TRUE, originator |-> FALSE, node |-> ""],
+                   [op |-> "schedule"] >>
+SpecWarm == InitWarm /\ [][Next]_vars
+\* Warmer: in addition a real task of the group, smaller than the placeholder, is waiting
+WK2 == CHOOSE w \in Keys \ {WK} : \A x \in Keys \ {WK} : KeyRank[w] <= KeyRank[x]
+WarmAsk == [op |-> "addAsk", app |-> WG, key |-> WK2, res |-> Res(1), ph |-> FALSE, tg |-> WTG, aged |-> TRUE, reqNode |-> "", prio |-> 0,
+            preemptOther |-> FALSE, preemptSelf |-> TRUE, originator |-> FALSE, node |-> ""]
+InitWarm2 ==
+      /\ node = [w \in Nodes |-> IF w = WN1 THEN [reg |-> TRUE, sched |-> TRUE, cap |-> WarmCap, keys |-> {WK}]
+                                  ELSE IF w = WN2 THEN [reg |-> TRUE, sched |-> TRUE, cap |-> WarmCap, keys |-> {}]
+                                  ELSE [reg |-> FALSE, sched |-> FALSE, cap |-> 0, keys |-> {}]]
+      /\ ask = [w \in Keys |-> IF w = WK THEN [st |-> "alloc", app |-> WG, size |-> 2, ph |-> TRUE, tg |-> WTG, node |-> WN1, rel |-> "", released |-> FALSE, listed |-> TRUE]
+                                ELSE IF w = WK2 THEN [st |-> "pend", app |-> WG, size |-> 1, ph |-> FALSE, tg |-> WTG, node |-> NoNode, rel |-> "", released |-> FALSE, listed |-> FALSE]
+                                ELSE NoAsk]
+      /\ app = [w \in Apps |-> IF w = WG THEN [st |-> "Accepted", known |-> TRUE] ELSE [st |-> "none", known |-> FALSE]]
+      /\ qal = [q \in Leaves |-> IF q = AppLeaf[WG] THEN 2 ELSE 0]
+      /\ resv = {} /\ sv = [w \in Keys |-> IF w = WK THEN "bound" ELSE IF w = WK2 THEN "out" ELSE "none"] /\ pend = <<>> /\ bad = {} /\ den = {}
+      /\ hist = << [op |-> "addNode", node |-> WN1, cap |-> Res(WarmCap), drained |-> FALSE],
+                   [op |-> "addNode", node |-> WN2, cap |-> Res(WarmCap), drained |-> FALSE],
+                   [op |-> "addApp", app |-> WG, queue |-> AppLeaf[WG], user |-> "u0", groups |-> <<"g1">>, tags |-> [w \in {} |-> ""],
+                    gang |-> TRUE, style |-> "Soft", phAsk |-> Res(2), forced |-> FALSE],
+                   [op |-> "addAsk", app |-> WG, key |-> WK, res |-> Res(2), ph |-> TRUE, tg |-> WTG, aged |-> TRUE, reqNode |-> "", prio |-> 0,
+                    preemptOther |-> FALSE, preemptSelf |-> TRUE, originator |-> FALSE, node |-> ""],
+                   [op |-> "schedule"], WarmAsk >>
+SpecWarm2 == InitWarm2 /\ [][Next]_vars
 
 (* ================================================================== invariants (the listed properties on the design) *)
 TypeOK == /\ \A n \in Nodes : node[n].keys \subseteq Keys
